@@ -336,3 +336,41 @@ package websocket
 //@ tags C08 C03
 //@ ensures [init] result != nil && gvcFresh(result) && result.c == c && result.fin && result.payloadLength == 0 && !result.flate
 //@ ensures [default-limit] result.limitReader != nil && result.limitReader.c == c && result.limitReader.n == specArmedLimit(specDefaultReadLimit) && ghi64(&result.limitReader.limit).val == specArmedLimit(specDefaultReadLimit)
+
+// ---------------------------------------------------------------------------
+// close.go (C06, C20, C09, C16)
+
+//@ func (*Conn).casClosing
+//@ tags C06
+//@ requires c != nil
+//@ modifies c.closing
+//@ ensures [cas] result == !old(c.closing) && c.closing
+
+//@ func (*Conn).waitGoroutines
+//@ tags C20
+//@ requires c != nil && c.timeoutLoopDone != nil && c.closed != nil && (c.closeReadCtx != nil ==> c.closeReadDone != nil)
+//@ ensures [joined] result == nil ==> gvcClosed(c.timeoutLoopDone) && gvcClosed(c.closed) && (c.closeReadCtx != nil ==> gvcClosed(c.closeReadDone))
+//@ ensures [err-kind] !errIs(result, net.ErrClosed) && !errIsCE(result)
+
+//@ func (*Conn).closeHandshake
+//@ assumed in-package contract, not yet proved against its body
+//@ tags C06
+//@ requires connInv(c)
+//@ modifies $WRFP, $RDFP, $CLFP
+//@ ensures [inv] connInv(c) && !gvcHeld(c.readMu.ch)
+
+//@ func (*Conn).Close
+//@ tags C06 C20
+//@ requires connInv(c) && !gvcHeld(c.readMu.ch) && c.timeoutLoopDone != nil && (c.closeReadCtx != nil ==> c.closeReadDone != nil)
+//@ modifies c.closing, $WRFP, $RDFP, $CLFP
+//@ ensures [second-call] old(c.closing) ==> err != nil
+//@ ensures [closing] c.closing
+//@ ensures [joined] {C20} err == nil ==> gvcClosed(c.timeoutLoopDone) && gvcClosed(c.closed) && (c.closeReadCtx != nil ==> gvcClosed(c.closeReadDone))
+
+//@ func (*Conn).CloseNow
+//@ tags C06 C20
+//@ requires connInv(c) && !gvcHeld(c.readMu.ch) && c.timeoutLoopDone != nil && (c.closeReadCtx != nil ==> c.closeReadDone != nil)
+//@ modifies c.closing, $WRFP, $CLFP
+//@ ensures [second-call] old(c.closing) ==> err != nil
+//@ ensures [closing] c.closing
+//@ ensures [joined] {C20} err == nil ==> gvcClosed(c.timeoutLoopDone) && gvcClosed(c.closed) && (c.closeReadCtx != nil ==> gvcClosed(c.closeReadDone))
